@@ -356,3 +356,10 @@ Proof.
       * destruct (existsb (path_eqb d) l); reflexivity.
       * reflexivity.
 Qed.
+
+Lemma moved_ext ml h1 h2 : (forall q, h1 q = h2 q) -> forall q, moved ml h1 q = moved ml h2 q.
+Proof.
+  intros Hh q. unfold moved. destruct (find_tgt ml q) as [[m' s]|].
+  - unfold src. destruct s, (m_put m') as [[c x]|]; auto.
+  - destruct (ex_src ml q); auto.
+Qed.
